@@ -82,9 +82,30 @@ PROPS = {
                  "object state covers them by induction over the list sizes in bound)"],
         assumptions=[],
     ),
+    "C13": dict(
+        modules=["harness.c13"],
+        level="other",
+        explanation="Bounded symbolic execution of every handler through the real process_request/_process_batch (the "
+                    "real catch-all is the observation point). Per condition (operation, stored kind, KMIP version) the "
+                    "stored state, every payload-field shape (selector ints) and value leaves (indices, lengths, text) "
+                    "are symbolic; the assertion is 'no batch item carries GENERAL_FAILURE for a request the real codec "
+                    "encodes and decodes'.",
+        stubs=["FakeSession", "RecordingCrypto (may raise the KmipErrors the real backend documents)", "NullLogger",
+               "engine.time pinned"],
+        outside=["exceptions raised inside the cryptography package for key/IV sizes it rejects (needs the real "
+                 "backend)", "payload shapes outside the per-operation menus listed in the bounds"],
+        assumptions=["a request is well-formed when RequestMessage.write/read of /repo accept it"],
+    ),
 }
 
 CLAIMS = {
+    "C13": dict(
+        text="For every (operation, stored object kind, version) cell and every parameter shape/value inside the "
+             "menus and ranges, no path of the real handlers ends in the General Failure catch-all for a request the "
+             "real codec accepts; listed known findings are excluded exactly, anything else is reported.",
+        note="Grid cells are conditions; shapes are finite menus (selector ints), values symbolic; recording crypto "
+             "backend; stub store.",
+    ),
     "C15": dict(
         text="For every attribute name of the rule table (quick: the implemented ones plus representatives), each "
              "operation and request form, and every index/value/list-size in the bounds: the nine protected "
